@@ -2,6 +2,7 @@ package webdav
 
 import (
 	"context"
+	"encoding/xml"
 	"fmt"
 	"io"
 	"net/http"
@@ -216,6 +217,27 @@ func (c *Client) Create(ctx context.Context, name string) (io.WriteCloser, error
 	return &fileWriter{pw, done}, nil
 }
 
+// closeMultiStatus closes the response of a DELETE, COPY or MOVE request. A
+// 207 Multi-Status response is how a server reports that the operation failed
+// for some members (RFC 4918 sections 9.6.1, 9.8.5 and 9.9.4): the first
+// failed member is returned as an error.
+func closeMultiStatus(resp *http.Response) error {
+	defer resp.Body.Close()
+	if resp.StatusCode != http.StatusMultiStatus {
+		return nil
+	}
+	var ms internal.MultiStatus
+	if err := xml.NewDecoder(resp.Body).Decode(&ms); err != nil {
+		return fmt.Errorf("webdav: failed to decode multi-status response: %v", err)
+	}
+	for i := range ms.Responses {
+		if err := ms.Responses[i].Err(); err != nil {
+			return err
+		}
+	}
+	return nil
+}
+
 // RemoveAll deletes a file. If the file is a directory, all of its descendants
 // are recursively deleted as well.
 func (c *Client) RemoveAll(ctx context.Context, name string) error {
@@ -228,8 +250,7 @@ func (c *Client) RemoveAll(ctx context.Context, name string) error {
 	if err != nil {
 		return err
 	}
-	resp.Body.Close()
-	return nil
+	return closeMultiStatus(resp)
 }
 
 // Mkdir creates a new directory.
@@ -274,8 +295,7 @@ func (c *Client) Copy(ctx context.Context, name, dest string, options *CopyOptio
 	if err != nil {
 		return err
 	}
-	resp.Body.Close()
-	return nil
+	return closeMultiStatus(resp)
 }
 
 // Move moves a file.
@@ -296,6 +316,5 @@ func (c *Client) Move(ctx context.Context, name, dest string, options *MoveOptio
 	if err != nil {
 		return err
 	}
-	resp.Body.Close()
-	return nil
+	return closeMultiStatus(resp)
 }
